@@ -15,6 +15,7 @@ from dsl import grid_points, params_impl
 from pipeline import init_impl, model_layout
 from props.simcommon import base_out, replay_case, run_panel, sim_cases
 
+CANARY = True
 RULE = ("cases = generated dyadic specifications (half of them fully discrete, so that every simulated state of every period is on the "
         "grid) x on-grid initial states x batches; distinct = structural signature; evaluations = on-grid agent-periods compared with the "
         "value array + frame cells compared between 'solve_and_simulate' and solve->'simulate'")
